@@ -498,9 +498,16 @@ func (w *Wallet) syncWithChain(birthdayStamp *waddrmgr.BlockStamp) error {
 			rollback = true
 		}
 
-		// If a rollback did not happen, we can proceed safely.
+		// If a rollback did not happen, the synced-to block is still
+		// part of the chain. Transactions may have been recorded in a
+		// block above it though (a relevant transaction is processed
+		// before its block is connected), and that block may be gone
+		// by now: unconfirm those, the rescan that follows confirms
+		// them again if their block is still there.
 		if !rollback {
-			return nil
+			return w.TxStore.Rollback(
+				txmgrNs, rollbackStamp.Height+1,
+			)
 		}
 
 		// Otherwise, we'll mark this as our new synced height.
